@@ -193,7 +193,7 @@ class SimFS:
                 if act[0] == 'die':
                     self._count('fault.death')
                     self.die(pid)
-                if act[0] == 'torn':
+                if act[0] in ('torn', 'short'):
                     return act
         return None
 
@@ -202,6 +202,9 @@ class SimFS:
         self.dead_pids.add(pid)
         if self.on_death is not None:
             self.on_death(pid)
+        if self.k is not None:
+            from .kernel import SimAbort
+            raise SimAbort()
         raise ProcessDied()
 
     on_death = None
@@ -284,6 +287,9 @@ class SimFS:
                     self.die(pid)
                 finally:
                     _AUTH[0] += 1
+            if act is not None and act[0] == 'short':
+                data = data[:act[1]]          # short write (disk filling up)
+                self._count('fault.short_write')
             n = os.write(raw.fd, data)
         finally:
             _AUTH[0] -= 1
